@@ -17,6 +17,7 @@ func init() {
 func runC09(c *Ctx) {
 	L := c.L
 	c.checkSchemeSelection("scheme-selection")
+	c.checkCellNonNegative("cell-nonnegative")
 	L.Trusts("go/constant evaluation of the composite literals")
 	c.checkSubstMatrices()
 	c.checkBacktrackCounters()
